@@ -143,7 +143,7 @@ Fixpoint decode_fields_g (L : layout) (e : env) (bs : list Z) (avail : Z)
 Definition struct_parse_arr_at (b : bctx) (L : layout) (pos : Z) : M record := fun c =>
   match seek_error pos with
   | Some t =>
-      if String.eqb t "OverflowError" && negb (leg_of b) then (Err EParse, c) else (Err (EPy t), c)
+      if negb (leg_of b) then (Err EParse, c) else (Err (EPy t), c)
   | None =>
       let avail := Z.max 0 (stream_len (b_x b) - pos) in
       match decode_fields_g L [] (rest_at (bs_of b) pos) avail with
@@ -574,7 +574,7 @@ Definition roundup_bits (n k : Z) : Z := Z.lor (n - 1) (2 ^ k - 1) + 1.       (*
 Definition parse_prop (b : bctx) (off : Z) : M Z := fun c =>
   match seek_error off with
   | Some t =>
-      if String.eqb t "OverflowError" && negb (leg_of b) then (Err EParse, c) else (Err (EPy t), c)
+      if negb (leg_of b) then (Err EParse, c) else (Err (EPy t), c)
   | None =>
       let rest := rest_at (bs_of b) off in
       let win := read_n rest 8 in
